@@ -489,6 +489,36 @@ func emitInfo(w *caseWriter, info *nfpm.Info) {
 	s("homepage", info.Homepage); s("license", info.License); s("changelog", info.Changelog)
 	w.line("num %s %d", xs("mtime"), info.MTime.Unix())
 	w.line("num %s %d", xs("umask"), uint32(info.Umask))
+	// the changelog file's entries, read here with plain YAML decoding (not with the library the packagers use)
+	if info.Changelog != "" {
+		if b, err := os.ReadFile(info.Changelog); err == nil {
+			var es []struct {
+				Semver   string `yaml:"semver"`
+				Date     string `yaml:"date"`
+				Packager string `yaml:"packager"`
+				Changes  []struct {
+					Note string `yaml:"note"`
+				} `yaml:"changes"`
+			}
+			if yaml.Unmarshal(b, &es) == nil {
+				var titles, times, notes []string
+				for _, e := range es {
+					titles = append(titles, e.Packager+" - "+e.Semver)
+					tm := ""
+					if t, err := time.Parse(time.RFC3339, e.Date); err == nil {
+						tm = fmt.Sprint(t.Unix())
+					}
+					times = append(times, tm)
+					n := ""
+					if len(e.Changes) > 0 {
+						n = strings.SplitN(e.Changes[0].Note, "\n", 2)[0]
+					}
+					notes = append(notes, n)
+				}
+				l("changelog.titles", titles); l("changelog.times", times); l("changelog.first_notes", notes)
+			}
+		}
+	}
 	l("depends", info.Depends); l("provides", info.Provides); l("replaces", info.Replaces)
 	l("recommends", info.Recommends); l("suggests", info.Suggests); l("conflicts", info.Conflicts)
 	s("deb.arch", info.Deb.Arch); s("deb.compression", info.Deb.Compression)
